@@ -22,6 +22,7 @@ META = {
                  'low; who-may-call',
 }
 META['text'] += ' Child documents are produced inside the visit window: lazy parameters are iterated completely on entry, generators of child prints are consumed in the printer, and no value is printed from inside a contextual evaluator (layout time).'
+META['text'] += ' Round 5: the wrapper model prints the same acyclic container referenced T+2 times (T: size constants of wrapper and context, mined): every reference in full; a membership test on the visited set is a read, not a touch; registrations enter the live registry inside the wrapper.'
 
 LEAF_KEYS = {'str', 'bytes', 'int', 'float', 'bool', 'type(None)', 'type(...)'}
 
